@@ -1,4 +1,405 @@
-use crate::world::World;
-use crate::Cx;
+//! Family 8: StatusList2021 (encoded lists, entries, credentials), RevocationBitmap services and statuses.
+use crate::gen::{self, Kind, NUM_TOKENS};
+use crate::world::{bitmap_data_url, gzip, roaring_bytes, status_list_encoded, zlib, World, ISSUER_DID};
+use crate::{hash_of, Cx, In};
+use identity_core::common::Url;
+use identity_core::convert::{FromJson, ToJson};
+use identity_credential::credential::{Credential, RevocationBitmapStatus, Status};
+use identity_credential::revocation::status_list_2021::{StatusList2021, StatusList2021Credential, StatusList2021Entry, StatusPurpose};
+use identity_credential::revocation::RevocationBitmap;
+use identity_credential::validator::{JwtCredentialValidatorUtils, StatusCheck};
+use identity_did::DIDUrl;
+use identity_document::service::Service;
+use vh::b64::{std_encode_nopad, std_encode_pad, url_encode};
 use vh::Rng;
-pub fn run(_cx: &mut Cx, _w: &World, _rng: &mut Rng, _budget: u64) {}
+
+pub const INDICES: &[usize] = &[0, 1, 7, 8, 9, 131070, 131071, 131072, 131073, 131079, 131080, 262143, 262144, 1 << 20, u32::MAX as usize, (u32::MAX as usize) + 1, usize::MAX / 8, usize::MAX - 7, usize::MAX];
+
+pub fn sweep_list(cx: &mut Cx, origin: &str, l: &StatusList2021) {
+  let len = cx.acc("StatusList2021.len", In::C(origin, "len"), || l.len()).unwrap_or(0);
+  let mut idx: Vec<usize> = INDICES.to_vec();
+  idx.extend([len.wrapping_sub(1), len, len.wrapping_add(1), len.wrapping_add(7), len / 2]);
+  for i in idx {
+    let arg = format!("index={}", i);
+    let inp = In::C(origin, &arg);
+    cx.acc("StatusList2021.get", inp, || l.get(i).ok());
+    cx.acc("StatusList2021.set", inp, || {
+      let mut c = l.clone();
+      (c.set(i, true).is_ok(), c.set(i, false).is_ok())
+    });
+  }
+  cx.acc("StatusList2021.misc", In::C(origin, "misc"), || (l.clone() == *l, hash_of(l), if len <= 1 << 18 { format!("{:?}", l).len() } else { 0 }));
+  if len <= 1 << 24 {
+    cx.acc("StatusList2021.into_encoded_str", In::C(origin, "encode"), || StatusList2021::try_from_encoded_str(&l.clone().into_encoded_str()).is_ok());
+  }
+}
+
+pub fn sweep_bitmap(cx: &mut Cx, origin: &str, b: &RevocationBitmap) {
+  let i = In::C(origin, "RevocationBitmap");
+  cx.acc("RevocationBitmap.queries", i, || (b.len(), b.is_empty(), b.is_revoked(0), b.is_revoked(u32::MAX), b.is_revoked(65536), b.clone() == *b, format!("{:?}", b).len()));
+  cx.acc("RevocationBitmap.mutations", i, || {
+    let mut c = b.clone();
+    (c.revoke(0), c.revoke(u32::MAX), c.revoke(65535), c.revoke(65536), c.unrevoke(0), c.unrevoke(7), c.len())
+  });
+  cx.acc("RevocationBitmap.to_service", i, || {
+    let id = DIDUrl::parse("did:example:123#rev").expect("harness url");
+    b.to_service(id).map(|s| RevocationBitmap::try_from(&s).map(|x| x == *b).ok()).ok()
+  });
+}
+
+pub fn sweep_slc(cx: &mut Cx, origin: &str, c: &StatusList2021Credential, rng: &mut Rng) {
+  let i = In::C(origin, "StatusList2021Credential");
+  cx.acc("StatusList2021Credential.getters", i, || (c.id().map(|u| u.as_str().len()), c.purpose().to_string().len(), c.to_string().len(), format!("{:?}", c).len(), c.clone() == *c));
+  cx.acc("StatusList2021Credential.to_json", i, || c.to_json().map(|j| StatusList2021Credential::from_json(&j).is_ok()).is_ok());
+  cx.acc("StatusList2021Credential.into_inner", i, || c.clone().into_inner().to_json().is_ok());
+  let mut idx: Vec<usize> = vec![0, 9, 131071, 131072, 1 << 20, usize::MAX / 8, usize::MAX];
+  idx.push(rng.below(200_000) as usize);
+  for n in idx {
+    let arg = format!("index={}", n);
+    let inp = In::C(origin, &arg);
+    cx.acc("StatusList2021Credential.entry", inp, || c.entry(n).ok());
+    cx.acc("StatusList2021Credential.update", inp, || {
+      let mut x = c.clone();
+      x.update(|l| {
+        let a = l.set_entry(n, true);
+        let _ = l.set_entry(n, false);
+        a
+      })
+      .is_ok()
+    });
+    cx.acc("StatusList2021Credential.set_credential_status", inp, || {
+      let mut x = c.clone();
+      let mut cred = blank_credential();
+      let r = x.set_credential_status(&mut cred, n, true).map(|e| e.index());
+      (r.is_ok(), cred.to_json().is_ok())
+    });
+  }
+}
+
+fn blank_credential() -> Credential {
+  Credential::from_json(
+    r#"{"@context":"https://www.w3.org/2018/credentials/v1","type":"VerifiableCredential","issuer":"did:example:issuer","issuanceDate":"2020-01-01T00:00:00Z","credentialSubject":{"id":"did:example:subject"}}"#,
+  )
+  .expect("harness blank credential")
+}
+
+fn credential_with_status(status_json: &str) -> Option<Credential> {
+  let j = format!(
+    r#"{{"@context":"https://www.w3.org/2018/credentials/v1","type":"VerifiableCredential","issuer":"{}","issuanceDate":"2020-01-01T00:00:00Z","credentialSubject":{{"id":"did:example:subject"}},"credentialStatus":{}}}"#,
+    ISSUER_DID, status_json
+  );
+  vh::panicmon::catch(|| Credential::from_json(&j).ok()).ok().flatten()
+}
+
+pub fn slc_json(encoded: &str, purpose: &str, id: &str) -> String {
+  format!(
+    r#"{{"@context":["https://www.w3.org/2018/credentials/v1","https://w3id.org/vc/status-list/2021/v1"],"id":"{id}","type":["VerifiableCredential","StatusList2021Credential"],"issuer":"did:example:12345","issuanceDate":"2021-04-05T14:27:40Z","credentialSubject":{{"id":"{id}#list","type":"StatusList2021","statusPurpose":"{purpose}","encodedList":"{encoded}"}}}}"#
+  )
+}
+
+pub fn entry_json(index: &str, purpose: &str, list: &str) -> String {
+  format!(r#"{{"id":"{list}#{i}","type":"StatusList2021Entry","statusPurpose":"{purpose}","statusListIndex":{index},"statusListCredential":"{list}"}}"#, i = index.trim_matches('"'))
+}
+
+fn feed_encoded(cx: &mut Cx, s: &str) {
+  if let Some(l) = cx.ent("StatusList2021::try_from_encoded_str", In::S(s), || StatusList2021::try_from_encoded_str(s)) {
+    sweep_list(cx, s, &l);
+  }
+}
+
+fn feed_status_json(cx: &mut Cx, w: &World, rng: &mut Rng, j: &str) {
+  let i = In::S(j);
+  if let Some(e) = cx.ent("StatusList2021Entry::from_json", i, || StatusList2021Entry::from_json(j)) {
+    cx.acc("StatusList2021Entry.sweep", i, || (e.id().as_str().len(), e.purpose().to_string().len(), e.index(), e.status_list_credential().as_str().len(), e.to_json().is_ok(), hash_of(&e), e.clone() == e, format!("{:?}", e).len()));
+    cx.acc("Status.from_StatusList2021Entry", i, || Status::from(e.clone()).to_json().is_ok());
+  }
+  if let Some(s) = cx.ent("Status::from_json", i, || Status::from_json(j)) {
+    cx.acc("Status.sweep", i, || (s.to_json().is_ok(), format!("{:?}", s).len(), s.clone() == s));
+    cx.acc("StatusList2021Entry.try_from_Status", i, || StatusList2021Entry::try_from(&s).map(|e| e.index()).ok());
+    if let Some(Ok(r)) = cx.acc("RevocationBitmapStatus.try_from_Status", i, || RevocationBitmapStatus::try_from(s.clone())) {
+      cx.acc("RevocationBitmapStatus.sweep", i, || (r.id().map(|u| u.to_string().len()).ok(), r.index().ok(), format!("{:?}", r).len(), Status::from(r.clone()).to_json().is_ok()));
+      cx.acc("JwtCredentialValidatorUtils.check_revocation_bitmap_status", i, || JwtCredentialValidatorUtils::check_revocation_bitmap_status(&w.issuer_doc, r.clone()).is_ok());
+    }
+    // a credential carrying this status, checked against the issuer document and a status list credential
+    if let Some(cred) = credential_with_status(j) {
+      for sc in [StatusCheck::Strict, StatusCheck::SkipUnsupported, StatusCheck::SkipAll] {
+        cx.acc("JwtCredentialValidatorUtils.check_status", i, || JwtCredentialValidatorUtils::check_status(&cred, std::slice::from_ref(&w.issuer_doc), sc).is_ok());
+      }
+      let list_id = s.properties.get("statusListCredential").and_then(|v| v.as_str()).unwrap_or("https://example.com/credentials/status/3").to_string();
+      for (purpose, enc) in [("revocation", w.status_list_encoded.as_str()), ("suspension", w.status_list_encoded.as_str()), ("revocation", "H4sIAAAAAAAAAwMAAAAAAAAAAAA")] {
+        let sj = slc_json(enc, purpose, &list_id);
+        if let Ok(Some(slc)) = vh::panicmon::catch(|| StatusList2021Credential::from_json(&sj).ok()) {
+          cx.acc("JwtCredentialValidatorUtils.check_status_with_status_list_2021", i, || JwtCredentialValidatorUtils::check_status_with_status_list_2021(&cred, &slc, StatusCheck::Strict).is_ok());
+        }
+      }
+    }
+  }
+  let _ = rng;
+}
+
+fn feed_slc_json(cx: &mut Cx, rng: &mut Rng, j: &str) {
+  let i = In::S(j);
+  if let Some(c) = cx.ent("StatusList2021Credential::from_json", i, || StatusList2021Credential::from_json(j)) {
+    sweep_slc(cx, j, &c, rng);
+  }
+  if let Some(c) = cx.ent("Credential::from_json", i, || Credential::<identity_core::common::Object>::from_json(j)) {
+    if let Some(s) = cx.ent("StatusList2021Credential::try_from", i, || StatusList2021Credential::try_from(c)) {
+      sweep_slc(cx, j, &s, rng);
+    }
+  }
+}
+
+fn feed_service(cx: &mut Cx, j: &str) {
+  let i = In::S(j);
+  if let Some(s) = cx.ent("Service::from_json", i, || Service::from_json(j)) {
+    if let Some(b) = cx.ent("RevocationBitmap::try_from(&Service)", i, || RevocationBitmap::try_from(&s)) {
+      sweep_bitmap(cx, j, &b);
+    }
+  }
+}
+
+fn service_json(endpoint: &str) -> String {
+  format!(r#"{{"id":"{}#rev","type":"RevocationBitmap2022","serviceEndpoint":{}}}"#, ISSUER_DID, serde_json::to_string(endpoint).unwrap_or_default())
+}
+
+fn gz_with_flags(flags: u8, extra: &[u8], body: &[u8]) -> Vec<u8> {
+  // hand-written gzip member: header with arbitrary FLG, then a stored deflate block, CRC/ISIZE left zero
+  let mut v = vec![0x1f, 0x8b, 8, flags, 0, 0, 0, 0, 0, 3];
+  v.extend_from_slice(extra);
+  v.push(1);
+  let n = body.len().min(65535) as u16;
+  v.extend_from_slice(&n.to_le_bytes());
+  v.extend_from_slice(&(!n).to_le_bytes());
+  v.extend_from_slice(&body[..n as usize]);
+  v.extend_from_slice(&[0; 8]);
+  v
+}
+
+pub fn run(cx: &mut Cx, w: &World, rng: &mut Rng, budget: u64) {
+  cx.set("status", "directed");
+  let mut k = 0u64;
+  // the default list and every hostile index (D5 lives here)
+  {
+    // runs in every shard: the minimal out-of-bounds witness comes first
+    if let Some(l) = cx.ent_v("StatusList2021::default", In::S("default"), StatusList2021::default) {
+      sweep_list(cx, "StatusList2021::default()", &l);
+    }
+    for n in [0usize, 1, 131071, 131072, 131073, 1 << 20, (1 << 24) + 3] {
+      let s = n.to_string();
+      if let Some(l) = cx.ent("StatusList2021::new", In::S(&s), || StatusList2021::new(n)) {
+        sweep_list(cx, &format!("StatusList2021::new({})", n), &l);
+      }
+    }
+  }
+  // encoded lists
+  let mut encoded: Vec<String> = vec![
+    w.status_list_encoded.clone(),
+    status_list_encoded(&[], 0),
+    status_list_encoded(&[0], 1),
+    status_list_encoded(&[0, 7, 8], 2),
+    status_list_encoded(&[5], 16 * 1024 - 1),
+    status_list_encoded(&[5, 131072], 16 * 1024 + 1),
+    status_list_encoded(&[], 4 << 20),
+    std_encode_pad(&gzip(&[0xff; 100])),
+    url_encode(&gzip(&[0xff; 100])),
+    std_encode_nopad(&zlib(&[0; 100])),
+    std_encode_nopad(&[0xff; 40]),
+    std_encode_nopad(b""),
+    std_encode_nopad(&[0x1f, 0x8b]),
+    std_encode_nopad(&[0x1f, 0x8b, 8, 0]),
+    String::new(),
+    "!!!".into(),
+    "é".into(),
+    "H4sIAAAAAAAAA".into(),
+    "H4sIAAAAAAAAA-3BMQEAAADCoPVPbQwfoAAAAAAAAAAAAAAAAAAAAIC3AYbSVKsAQAAA".into(),
+    "H4sIAAAAAAAAA+3BMQEAAADCoPVPbQwfoAAAAAAAAAAAAAAAAAAAAIC3AYbSVKsAQAAA".into(),
+  ];
+  let g = gzip(&vec![0u8; 16 * 1024]);
+  for cut in [1usize, 5, 10, 11, 18, g.len() - 9, g.len() - 8, g.len() - 4, g.len() - 1] {
+    encoded.push(std_encode_nopad(&g[..cut.min(g.len())]));
+  }
+  let mut twice = g.clone();
+  twice.extend_from_slice(&g);
+  encoded.push(std_encode_nopad(&twice));
+  let mut trailing = g.clone();
+  trailing.extend_from_slice(b"garbage");
+  encoded.push(std_encode_nopad(&trailing));
+  let mut badcrc = g.clone();
+  let n = badcrc.len();
+  badcrc[n - 6] ^= 0xff;
+  encoded.push(std_encode_nopad(&badcrc));
+  for flags in [0u8, 2, 4, 8, 16, 0x1e, 0xe0, 0xff] {
+    encoded.push(std_encode_nopad(&gz_with_flags(flags, &[], &[0xaa; 64])));
+    encoded.push(std_encode_nopad(&gz_with_flags(flags, &[0xff, 0xff], &[0xaa; 64])));
+    encoded.push(std_encode_nopad(&gz_with_flags(flags, &[2, 0, b'a', b'b', b'n', 0, b'c', 0, 0, 0], &[0xaa; 64])));
+  }
+  for e in &encoded {
+    k += 1;
+    if cx.args.mine(k) {
+      feed_encoded(cx, e);
+    }
+  }
+  // entries / statuses
+  let list = "https://example.com/credentials/status/3";
+  let mut statuses: Vec<String> = Vec::new();
+  for n in NUM_TOKENS {
+    for purpose in ["revocation", "suspension", "Revocation", ""] {
+      statuses.push(entry_json(&format!("\"{}\"", n), purpose, list));
+      if serde_json::from_str::<serde_json::Value>(n).is_ok() {
+        statuses.push(entry_json(n, purpose, list));
+      }
+    }
+    statuses.push(format!(r#"{{"id":"{}?index={n}#rev","type":"RevocationBitmap2022","revocationBitmapIndex":"{n}"}}"#, ISSUER_DID));
+    statuses.push(format!(r#"{{"id":"{}?index=5#rev","type":"RevocationBitmap2022","revocationBitmapIndex":"{n}"}}"#, ISSUER_DID));
+    statuses.push(format!(r#"{{"id":"{}#rev","type":"RevocationBitmap2022","revocationBitmapIndex":"{n}"}}"#, ISSUER_DID));
+  }
+  for id in ["did:example:1", "https://example.com/#rev", "did:example:1?index=1&index=2#rev", "did:example:1?index=%zz#rev", " did:example:1#rev", "did:example:1%41#rev", "a:"] {
+    statuses.push(format!(r#"{{"id":"{id}","type":"RevocationBitmap2022","revocationBitmapIndex":"1"}}"#));
+    statuses.push(format!(r#"{{"id":"{id}","type":"StatusList2021Entry","statusPurpose":"revocation","statusListIndex":"1","statusListCredential":"{id}"}}"#));
+  }
+  for f in ["#rev", "#rev-bad", "#rev-http", "#rev-set", "#ld", "#nope", "#ed", ""] {
+    statuses.push(format!(r#"{{"id":"{}{f}","type":"RevocationBitmap2022","revocationBitmapIndex":"3"}}"#, ISSUER_DID));
+  }
+  statuses.push(r#"{"id":"a:","type":"RevocationBitmap2022"}"#.into());
+  statuses.push(r#"{"id":"a:","type":"RevocationBitmap2022","revocationBitmapIndex":5}"#.into());
+  statuses.push(r#"{"id":"a:","type":"StatusList2021Entry"}"#.into());
+  for (_, t, _) in w.seeds.json.iter().filter(|(kk, _, _)| *kk == Kind::Status) {
+    statuses.push(t.clone());
+  }
+  for s in &statuses {
+    k += 1;
+    if cx.args.mine(k) {
+      feed_status_json(cx, w, rng, s);
+    }
+  }
+  // status list credentials
+  let mut slcs: Vec<String> = Vec::new();
+  for e in encoded.iter().take(12) {
+    for p in ["revocation", "suspension", "x"] {
+      slcs.push(slc_json(e, p, list));
+    }
+  }
+  slcs.push(slc_json(&w.status_list_encoded, "revocation", list).replace("\"StatusList2021\"", "\"X\""));
+  slcs.push(slc_json(&w.status_list_encoded, "revocation", list).replace("\"StatusList2021Credential\"", "\"X\""));
+  slcs.push(slc_json(&w.status_list_encoded, "revocation", list).replace(&format!("\"id\":\"{}#list\",", list), ""));
+  slcs.push(slc_json(&w.status_list_encoded, "revocation", list).replace("\"encodedList\":\"", "\"encodedList\":[\""));
+  for (_, t, _) in w.seeds.json.iter().filter(|(_, t, _)| t.contains("StatusList2021Credential")) {
+    slcs.push(t.clone());
+  }
+  for s in &slcs {
+    k += 1;
+    if cx.args.mine(k) {
+      feed_slc_json(cx, rng, s);
+    }
+  }
+  // revocation bitmap services
+  let rb = roaring_bytes(&[1, 2, 3, 70000, u32::MAX]);
+  let dense: Vec<u32> = (0..5000).collect();
+  let mut endpoints: Vec<String> = vec![
+    w.bitmap_endpoint.clone(),
+    bitmap_data_url(&[]),
+    bitmap_data_url(&dense),
+    bitmap_data_url(&[u32::MAX]),
+    format!("data:application/octet-stream;base64,{}", std_encode_nopad(url_encode(&zlib(&rb)).as_bytes())),
+    format!("data:application/octet-stream;base64,{}", url_encode(&rb)),
+    format!("data:application/octet-stream;base64,{}", url_encode(&zlib(b"garbage"))),
+    format!("data:application/octet-stream;base64,{}", url_encode(&zlib(&[]))),
+    format!("data:application/octet-stream;base64,{}", url_encode(&zlib(&vec![0u8; 1 << 20]))),
+    format!("data:application/octet-stream;base64,{}", url_encode(&gzip(&rb))),
+    "data:application/octet-stream;base64,".into(),
+    "data:application/octet-stream;base64,eJy".into(),
+    "data:application/octet-stream;base64,eJyé".into(),
+    "data:application/octet-stream;base64,ZUp5".into(),
+    "data:application/octet-stream;base64,/w".into(),
+    "data:application/octet-stream;base64,!!!".into(),
+    "data:,x".into(),
+    "https://example.com/".into(),
+    "DATA:application/octet-stream;base64,eJyzMmAAAwADKABr".into(),
+  ];
+  // roaring headers: cookies, container counts, run containers, truncations
+  // run-container cookie, 1 container flagged as run container with zero runs => an empty container is accepted
+  let mut raws: Vec<Vec<u8>> = vec![vec![0x3b, 0x30, 0, 0, 1, 0, 0, 0, 0, 0, 0], rb.clone(), roaring_bytes(&dense)];
+  for cookie in [12346u32, 12347, 12345, 0, u32::MAX, 12347 | (0xffff << 16), 12347 | (3 << 16)] {
+    for n in [0u32, 1, 2, 65536, 65537, u32::MAX] {
+      let mut v = cookie.to_le_bytes().to_vec();
+      v.extend_from_slice(&n.to_le_bytes());
+      v.extend_from_slice(&[0xff; 40]);
+      raws.push(v);
+    }
+  }
+  for cut in [0usize, 1, 3, 4, 7, 8, 9, 12, 15, 16, rb.len() - 1] {
+    raws.push(rb[..cut.min(rb.len())].to_vec());
+  }
+  for r in &raws {
+    endpoints.push(format!("data:application/octet-stream;base64,{}", url_encode(&zlib(r))));
+  }
+  for e in &endpoints {
+    k += 1;
+    if cx.args.mine(k) {
+      feed_service(cx, &service_json(e));
+      feed_service(cx, &service_json(e).replace("\"RevocationBitmap2022\"", "[\"X\",\"RevocationBitmap2022\"]"));
+    }
+  }
+  feed_service(cx, &format!(r#"{{"id":"{}#rev","type":"RevocationBitmap2022","serviceEndpoint":["{}"]}}"#, ISSUER_DID, w.bitmap_endpoint));
+  feed_service(cx, &format!(r#"{{"id":"{}#rev","type":"RevocationBitmap2022","serviceEndpoint":{{"a":["{}"]}}}}"#, ISSUER_DID, w.bitmap_endpoint));
+  // RevocationBitmapStatus::new over accepted (possibly odd) DID URLs
+  for u in ["did:example:1#rev", "did:example:1?a=b#rev", "did:example:1/p", "did:example:1%41#rev", "did:example:1?index=9#rev"] {
+    if let Ok(Ok(url)) = vh::panicmon::catch(|| DIDUrl::parse(u)) {
+      for n in [0u32, 5, u32::MAX] {
+        cx.ent_v("RevocationBitmapStatus::new", In::S(u), || {
+          let s = RevocationBitmapStatus::new(url.clone(), n);
+          (s.index().ok(), s.id().is_ok(), RevocationBitmapStatus::try_from(Status::from(s)).is_ok())
+        });
+      }
+    }
+  }
+  let _ = Url::parse("a:");
+
+  // ---- mutation
+  cx.gen("mutation");
+  for _ in 0..budget {
+    match rng.below(6) {
+      0 => {
+        // mutate the compressed stream, re-encode
+        let m = gen::mutate_bytes(rng, &g, &gz_with_flags(0x1e, &[1, 0, 0], b"x"));
+        feed_encoded(cx, &std_encode_nopad(&m));
+      }
+      1 => {
+        let seed = &encoded[rng.usize(encoded.len().min(8))];
+        let seed = if seed.len() > 4096 { &w.status_list_encoded } else { seed };
+        let t = gen::any_token(rng);
+        let m = gen::mutate_str(rng, seed, t);
+        feed_encoded(cx, &m);
+      }
+      2 => {
+        let s = &statuses[rng.usize(statuses.len())];
+        let v = serde_json::from_str::<serde_json::Value>(s).ok();
+        let t = gen::any_token(rng);
+        let m = gen::mutate_json_text(rng, s, v.as_ref(), t);
+        feed_status_json(cx, w, rng, &m);
+      }
+      3 => {
+        let s = &slcs[rng.usize(slcs.len())];
+        let v = serde_json::from_str::<serde_json::Value>(s).ok();
+        let t = gen::any_token(rng);
+        let m = gen::mutate_json_text(rng, s, v.as_ref(), t);
+        feed_slc_json(cx, rng, &m);
+      }
+      4 => {
+        // mutate the roaring serialisation, compress, wrap
+        let seed = &raws[rng.usize(raws.len())];
+        let m = gen::mutate_bytes(rng, seed, &rb);
+        let body = if rng.chance(1, 5) { gen::mutate_bytes(rng, &zlib(&m), b"\x78\x9c") } else { zlib(&m) };
+        let enc = if rng.chance(1, 6) { std_encode_nopad(url_encode(&body).as_bytes()) } else { url_encode(&body) };
+        feed_service(cx, &service_json(&format!("data:application/octet-stream;base64,{}", enc)));
+      }
+      _ => {
+        let e = &endpoints[rng.usize(endpoints.len())];
+        let e = if e.len() > 4096 { &w.bitmap_endpoint } else { e };
+        let t = gen::any_token(rng);
+        let m = gen::mutate_str(rng, e, t);
+        feed_service(cx, &service_json(&m));
+      }
+    }
+  }
+}
